@@ -58,7 +58,7 @@ int main(int argc, char **argv)
     load_all(argc, argv);
     if (mode == 's') { g_use_sched = 1; yyin = stdin; yylex(); }
     else if (mode == 'f') { yyin = fopen(argv[2], "rb"); yylex(); }
-    else if (mode == 'p') { yyin = stdin; yylex(); }
+    else if (mode == 'p') { yyin = stdin; if (argc > 3 && argv[3][0] == 'i') { yy_set_interactive(1); } yylex(); }
     else if (mode == 'S') { yy_scan_string((char *) g_data); yylex(); }
     else if (mode == 'B') { yy_scan_bytes((char *) g_data, (int) g_len); yylex(); }
     else if (mode == 'U') { if (!yy_scan_buffer((char *) g_data, (size_t) g_len + 2)) { printf("NULLBUF\n"); return 0; } yylex(); }
@@ -283,7 +283,7 @@ def eval_sched_case(flex, workdir, case):
         with open(ipath, "wb") as f:
             f.write(bytes(w))
         if mode == 'p':
-            rc, out, err = run_piped([os.path.join(workdir, "s.exe"), mode, ipath], bytes(w), schedule, timeout=8)
+            rc, out, err = run_piped([os.path.join(workdir, "s.exe"), mode, ipath] + (["i"] if case.get('setint') else []), bytes(w), schedule, timeout=8)
         else:
             rc, out, err = run([os.path.join(workdir, "s.exe"), mode, ipath] + [str(x) for x in schedule], timeout=6)
         evs = parse_events(out)
